@@ -178,16 +178,22 @@ def fam_roundtrip(rng, tier, i):
     hdr = bytes(rng.randrange(256) for _ in range(rng.choice([0, 0, 1, 12])))
     s = [new_line("s", p, hdr)]
     cut = rng.randrange(0, len(lines) + 1)
+    overlong = i % 5 == 2 and len(lines) >= 2       # directed: a buffer too long by exactly one well-formed line, between two appends
+    if overlong:
+        cut = max(cut, 2)
     for k, (t, pay) in enumerate(lines[:cut]):
         s.append("push %d %s" % (t, hexb(pay)))
         if k >= 1 and rng.random() < 0.35:
             a = lines[rng.randrange(0, k + 1)][0]; b = lines[rng.randrange(0, k + 1)][0]
             s.append(rng.choice(["n_lines i%d i%d", "read_all i%d i%d", "n_lines e%d e%d", "read_first_n 1 i%d i%d"]) % (min(a, b), max(a, b)))
-    if lines[:cut] and rng.random() < 0.3:
+    r_w = rng.random()
+    if lines[:cut] and (r_w < 0.3 or overlong):
         # a buffer of the wrong length (too long: the library must not write it, in part or in full; too short) between
         # two appends or after the last one: refused, and nothing the accessors report may move
         pushes = [k for k, l in enumerate(s) if l.startswith("push ")]
         at = rng.choice(pushes)                      # right after this append
+        if overlong:
+            at = pushes[0]                           # followed by at least one ordinary append
         t_prev = int(s[at].split()[1])
         t_next = int(s[pushes[pushes.index(at) + 1]].split()[1]) if at != pushes[-1] else None
         t_bad = t_prev + 1 if (t_next is None or t_next - t_prev >= 2) else None
@@ -195,7 +201,8 @@ def fam_roundtrip(rng, tier, i):
             t_bad = t_prev + 70000
         extra = rng.choice([1, 2, p + 2, 2 * (p + 2)])
         bad = bytes(rng.randrange(256) for _ in range(p + extra if (p == 0 or rng.random() < 0.7) else p - 1))
-        if t_bad is not None and t_bad < U64 and rng.random() < 0.5:
+        r_v = rng.random()
+        if t_bad is not None and t_bad < U64 and (r_v < 0.5 or overlong):
             # too long by exactly one line, and the surplus bytes look like the next line of the same section: were they
             # written, a later read would show a line nobody appended while length and range know nothing of it
             full = None
